@@ -19,8 +19,8 @@ CONSTANTS Procs,            \* set of process ids
           UniqueNames,      \* TRUE: mkstemp/mkdtemp/token_hex semantics; FALSE: a shared output name (mutant)
           EmitTerminal      \* TRUE: print terminal states (used with one process: C19 replay)
 
-VARIABLES sit, pc, tmp, cwd, outdir, stdout, stderr, exit, readFrom
-vars == <<sit, pc, tmp, cwd, outdir, stdout, stderr, exit, readFrom>>
+VARIABLES sit, pc, tmp, cwd, outdir, stdout, stderr, exit, readFrom, written
+vars == <<sit, pc, tmp, cwd, outdir, stdout, stderr, exit, readFrom, written>>
 
 \* a temp file is <<kind, owner>>; tmp is the set of entries in $TMPDIR, cwd the set created in the cwd
 Name(p, kind) == IF UniqueNames \/ kind # "outdir" THEN <<kind, p>> ELSE <<kind, 0>>
@@ -35,48 +35,52 @@ Reports(p) == {<<"auto", sit[p].format>>}
 Init == /\ sit \in [Procs -> Sits]
         /\ pc = [p \in Procs |-> "start"] /\ tmp = {} /\ cwd = {} /\ outdir = [n \in {} |-> {}]
         /\ stdout = [p \in Procs |-> "none"] /\ stderr = [p \in Procs |-> FALSE]
-        /\ exit = [p \in Procs |-> -1] /\ readFrom = [p \in Procs |-> {}]
+        /\ exit = [p \in Procs |-> -1] /\ readFrom = [p \in Procs |-> {}] /\ written = [p \in Procs |-> "none"]
 
 Mine(p) == {f \in tmp : f[2] = p}
 Fail(p, code) == /\ tmp' = tmp \ Mine(p)                         \* every except branch cleans up
                  /\ outdir' = [n \in DOMAIN outdir \ {Name(p, "outdir")} |-> outdir[n]]
                  /\ stderr' = [stderr EXCEPT ![p] = TRUE] /\ exit' = [exit EXCEPT ![p] = code]
-                 /\ pc' = [pc EXCEPT ![p] = "exited"] /\ UNCHANGED <<sit, cwd, stdout, readFrom>>
+                 /\ pc' = [pc EXCEPT ![p] = "exited"] /\ UNCHANGED <<sit, cwd, stdout, readFrom, written>>
 
 ReadInput(p) ==
   /\ pc[p] = "start"
   /\ IF BadInput(p) THEN Fail(p, 1)
      ELSE /\ tmp' = IF FromStdin(p) THEN tmp \cup {Name(p, "stdincopy")} ELSE tmp
-          /\ pc' = [pc EXCEPT ![p] = "hashed"] /\ UNCHANGED <<sit, cwd, outdir, stdout, stderr, exit, readFrom>>
+          /\ pc' = [pc EXCEPT ![p] = "hashed"] /\ UNCHANGED <<sit, cwd, outdir, stdout, stderr, exit, readFrom, written>>
 MkOutDir(p) ==
   /\ pc[p] = "hashed"
   /\ tmp' = tmp \cup {Name(p, "outdir")}
   /\ outdir' = IF Name(p, "outdir") \in DOMAIN outdir THEN outdir ELSE (Name(p, "outdir") :> {}) @@ outdir
-  /\ pc' = [pc EXCEPT ![p] = "outdir"] /\ UNCHANGED <<sit, cwd, stdout, stderr, exit, readFrom>>
+  /\ pc' = [pc EXCEPT ![p] = "outdir"] /\ UNCHANGED <<sit, cwd, stdout, stderr, exit, readFrom, written>>
 MkAuto(p) ==
   /\ pc[p] = "outdir" /\ tmp' = tmp \cup {Name(p, "autofile")}
-  /\ pc' = [pc EXCEPT ![p] = "auto"] /\ UNCHANGED <<sit, cwd, outdir, stdout, stderr, exit, readFrom>>
+  /\ pc' = [pc EXCEPT ![p] = "auto"] /\ UNCHANGED <<sit, cwd, outdir, stdout, stderr, exit, readFrom, written>>
 Run(p) ==
   /\ pc[p] = "auto"
   /\ IF ParseFail(p) THEN Fail(p, 2)
      ELSE /\ Name(p, "outdir") \in DOMAIN outdir
           /\ outdir' = [outdir EXCEPT ![Name(p, "outdir")] = @ \cup {<<r[1], r[2], p>> : r \in Reports(p)}]
-          /\ pc' = [pc EXCEPT ![p] = "ran"] /\ UNCHANGED <<sit, tmp, cwd, stdout, stderr, exit, readFrom>>
+          /\ pc' = [pc EXCEPT ![p] = "ran"] /\ UNCHANGED <<sit, tmp, cwd, stdout, stderr, exit, readFrom, written>>
 \* the contract: the report printed is the auto report of THIS run, whatever else the file defines
+\* with --output the report goes to the named file instead of stdout; an existing file is not overwritten
+\* without --force: that is a failure path like any other (clean up, diagnostic, non-zero exit)
 Emit(p) ==
   /\ pc[p] = "ran" /\ Name(p, "outdir") \in DOMAIN outdir
-  /\ LET cands == {f \in outdir[Name(p, "outdir")] : f[1] = "auto" /\ f[2] = sit[p].format}
-     IN  /\ cands # {}
-         /\ \E f \in cands :
-               /\ readFrom' = [readFrom EXCEPT ![p] = {f[3]}]
-               /\ stdout' = [stdout EXCEPT ![p] = IF f[3] = p THEN "auto" ELSE "foreign"]
-  /\ pc' = [pc EXCEPT ![p] = "emitted"] /\ UNCHANGED <<sit, tmp, cwd, outdir, stderr, exit>>
+  /\ IF sit[p].out = "exists" THEN Fail(p, 2)
+     ELSE /\ LET cands == {f \in outdir[Name(p, "outdir")] : f[1] = "auto" /\ f[2] = sit[p].format}
+             IN  /\ cands # {}
+                 /\ \E f \in cands :
+                       /\ readFrom' = [readFrom EXCEPT ![p] = {f[3]}]
+                       /\ stdout' = [stdout EXCEPT ![p] = IF sit[p].out # "stdout" THEN "none" ELSE IF f[3] = p THEN "auto" ELSE "foreign"]
+                       /\ written' = [written EXCEPT ![p] = IF sit[p].out = "stdout" THEN "none" ELSE IF f[3] = p THEN "auto" ELSE "foreign"]
+          /\ pc' = [pc EXCEPT ![p] = "emitted"] /\ UNCHANGED <<sit, tmp, cwd, outdir, stderr, exit>>
 Cleanup(p) ==
   /\ pc[p] = "emitted"
   /\ tmp' = (tmp \ Mine(p)) \ {Name(p, "outdir")}
   /\ outdir' = [n \in DOMAIN outdir \ {Name(p, "outdir")} |-> outdir[n]]
   /\ exit' = [exit EXCEPT ![p] = 0] /\ pc' = [pc EXCEPT ![p] = "exited"]
-  /\ UNCHANGED <<sit, cwd, stdout, stderr, readFrom>>
+  /\ UNCHANGED <<sit, cwd, stdout, stderr, readFrom, written>>
 \* a process whose output directory was removed under it fails with 2
 Lost(p) == /\ pc[p] \in {"auto", "ran"} /\ Name(p, "outdir") \notin DOMAIN outdir /\ Fail(p, 2)
 
@@ -86,15 +90,16 @@ Spec == Init /\ [][Next]_vars /\ WF_vars(Next)
 AllDone == \A p \in Procs : pc[p] = "exited"
 \* C19
 ExitContract == \A p \in Procs : pc[p] = "exited" =>
-   /\ exit[p] = (IF BadInput(p) THEN 1 ELSE IF ParseFail(p) THEN 2 ELSE 0)
-   /\ stdout[p] = (IF exit[p] = 0 THEN "auto" ELSE "none")
+   /\ exit[p] = (IF BadInput(p) THEN 1 ELSE IF ParseFail(p) \/ sit[p].out = "exists" THEN 2 ELSE 0)
+   /\ stdout[p] = (IF exit[p] = 0 /\ sit[p].out = "stdout" THEN "auto" ELSE "none")
+   /\ written[p] = (IF exit[p] = 0 /\ sit[p].out # "stdout" THEN "auto" ELSE "none")
    /\ (exit[p] # 0 => stderr[p])
 \* C20
 NoTrace == AllDone => tmp = {} /\ cwd = {} /\ DOMAIN outdir = {}
 Isolation == \A p \in Procs : readFrom[p] \subseteq {p}
 Terminates == <>AllDone
 EmitT == (EmitTerminal /\ AllDone) =>
-   PrintT(<<"CLITERM", ToJson([p \in Procs |-> [sit |-> sit[p], exit |-> exit[p], stdout |-> stdout[p], stderr |-> stderr[p],
+   PrintT(<<"CLITERM", ToJson([p \in Procs |-> [sit |-> sit[p], exit |-> exit[p], stdout |-> stdout[p], written |-> written[p], stderr |-> stderr[p],
                                                   tmpLeft |-> Cardinality(tmp), cwdNew |-> Cardinality(cwd)]])>>)
 
 (* ------------- file-operation traces of real processes (strace), C20 ------------------------- *)
